@@ -95,6 +95,10 @@ func runCase(c string) string {
 		return runHTTP(f)
 	case "phout":
 		return runPhout(f)
+	case "cfggun":
+		return runCfgGun(f)
+	case "gjson":
+		return runGJSON(f)
 	case "hscen":
 		return runHScen(f)
 	case "gshoot":
@@ -226,6 +230,7 @@ func gen(r *vh.Rand, tier string) []string {
 		out = append(out, fmt.Sprintf("ids 0 %d %d", r.Range(1, 16), r.Range(0, 400)))
 	}
 	out = append(out, genGuns(r, tier)...)
+	out = append(out, genCfgGuns(r, tier)...)
 	return out
 }
 
